@@ -102,6 +102,17 @@ func c04Ops(seed int64, phase, writers int, root string) []c04Op {
 		w := r.Intn(writers)
 		ks := known[w]
 		switch pick := r.Intn(10); {
+		case pick == 5 && r.Chance(0.3):
+			// one large batch (hundreds of identities): many pages and WAL frames inside one transaction
+			n := 300 + r.Intn(1100)
+			pts := make(data.Points, 0, n)
+			typ := []string{"arr", "tbl"}[r.Intn(2)]
+			for j := 0; j < n; j++ {
+				p := data.Point{Type: typ, Key: fmt.Sprint(j + 1), Time: ts(), Value: val(), Origin: "w"}
+				p.Text = fmt.Sprintf("t%v", p.Value)
+				pts = append(pts, p)
+			}
+			add(c04Op{Writer: w, Kind: "nodePoints", Node: ks[r.Intn(len(ks))], Points: pts})
 		case pick < 6:
 			add(c04Op{Writer: w, Kind: "nodePoints", Node: ks[r.Intn(len(ks))], Points: nodePts(1 + r.Intn(5))})
 		case pick < 8:
@@ -290,7 +301,7 @@ func runC04(tier string, args []string) int {
 		return c04Recover(args[1:])
 	}
 	c := vlib.NewCtx("C04", tier, "fault_enumeration")
-	c.SetRule("per case a writer process (full instance + 1-4 writer connections issuing a deterministic list of acknowledged batches with unique timestamps/values: node batches of 1-5 points, edge creation with node type and edge points, edge-point updates, a mirror, over a 4-deep diamond-shaped tree) is killed with SIGKILL at a crash instant chosen from: (a) the N-th write(2) to the store file or its WAL, injected by strace, N from a PRNG list covering first-time initialisation (small N) and steady state, (b) the k-th hit of a verif-tag hook site inside the store (between the statements of a write transaction, between database write and rebroadcast, between the separate steps of first-time initialisation), (c) a parent-side kill after k acknowledged operations, (d) no kill (clean stop). The file is then reopened by a fresh process (full instance), dumped and judged; the recovered file is run and killed a second time (crash during reopening / continued use). Oracle: reopen succeeds with one root; root id and signing key equal the ones announced before the kill; every acknowledged batch is present (stored timestamp >= each of its points); every started batch is visible completely or not at all; no stored harness point that was never sent; C03 Merkle oracle on the recovered tree; admin.storeVerify silent. distinct = (phase, kill kind, operation kind open at death, init|steady, write-index bucket)")
+	c.SetRule("per case a writer process (full instance + 1-4 writer connections issuing a deterministic list of acknowledged batches with unique timestamps/values: node batches of 1-5 points and occasional batches of 300-1400 points, edge creation with node type and edge points, edge-point updates, a mirror, over a 4-deep diamond-shaped tree) is killed with SIGKILL at a crash instant chosen from: (a) the N-th write(2) to the store file or its WAL, injected by strace, N from a PRNG list covering first-time initialisation (small N) and steady state, (b) the k-th hit of a verif-tag hook site inside the store (between the statements of a write transaction, between database write and rebroadcast, between the separate steps of first-time initialisation), (c) a parent-side kill after k acknowledged operations, (d) no kill (clean stop). The file is then reopened by a fresh process (full instance), dumped and judged; the recovered file is run and killed a second time (crash during reopening / continued use). Oracle: reopen succeeds with one root; root id and signing key equal the ones announced before the kill; every acknowledged batch is present (stored timestamp >= each of its points); every started batch is visible completely or not at all; no stored harness point that was never sent; C03 Merkle oracle on the recovered tree; admin.storeVerify silent. distinct = (phase, kill kind, operation kind open at death, init|steady, write-index bucket)")
 	c.Assume("process death only (SIGKILL): the page cache survives, which is what the property states; power loss is out of scope")
 	self, _ := os.Executable()
 	if _, err := exec.LookPath("strace"); err != nil {
